@@ -743,7 +743,7 @@ def main(tier, seed):
                      "amaranth.lib.data.View.__getitem__ / eq", "amaranth.lib.enum.EnumType.const / from_bits", "amaranth.lib.enum.FlagView.{__or__,__and__,__xor__,__invert__}",
                      "amaranth.hdl._ast.Const.__init__ (field normalisation)", "amaranth.sim._pyrtl compiled code of view reads and field assignments"]
     rep.bounds = {"layouts": len(jobs) - 1, "depth": "<= 3", "fields": "<= 4 per level", "field_width": "0..4, signed, enum fields", "total_size": "<= 12 (14) bits",
-                  "outside": "in-synthesis clause is covered through C04's equivalence for the same kind of designs, not separately here; dynamic array indices"}
+                  "outside": "layouts deeper than 3 levels or wider than the stated bound; KEEP flags whose shape is wider than the highest flag; the in-synthesis clause runs through C04's translation validation for a share of the designs"}
     rep.stubs = ["amaranth.lib.data.operator/range, amaranth.hdl._ast.operator/int, amaranth.utils.operator (identity / arithmetic models on proxies)", "HSignalState", "if-converting interpreter"]
     rep.assumptions = []
     rep.rule = "hand-written corner layouts plus seeded random layout trees; obligations per layout: placement, from_bits/as_bits/Const[] for all raw patterns, const(fields), view reads, view field assignment"
